@@ -2,6 +2,9 @@
 BacktrackSolver (interpreted), all monitors attached.  Serves C01 C02 C03 C04 C07 C08 C10 C13 C16 C17."""
 from __future__ import annotations
 
+import json
+import os
+
 import traceback
 from collections import Counter
 from typing import List, Optional
@@ -14,6 +17,7 @@ from sim.kernel import Choices, sha
 from sim.monitors import EngineListener
 from sim.steps import CLOCK, StepBudgetExceeded
 
+BUDGET_CAP = 150_000_000
 SOLVER_BUDGET = 1_500_000  # backward jumps per solver call (terminating runs of scope S use < 50k)
 
 STAT_KEYS = [
@@ -186,6 +190,19 @@ def run_explicit(ch: Choices, focus: str, explicit: dict) -> dict:
     return out
 
 
+def step_budget(model: dict, cfg: dict) -> int:
+    """Simulated steps allowed to one solver call: a function of the problem size, as C04 states the bound.  A search
+    visits at most 2 x |space| nodes; a node costs one pass (under shaving up to 2 probes per shared domain and round) of
+    constraint executions whose loops run over their variables and parameters, plus heuristic loops over all shared
+    domains.  Calibrated on 120 000 terminating calls of the unchanged tree: largest observed
+    (steps - 3000) / (space x W x (1 + domains if shaving)) = 17.5 with W = domains + sum(arity + parameters + 4); the
+    budget allows 200.  Never below SOLVER_BUDGET; the cap keeps a livelock in a large model detectable in minutes."""
+    nd = len(model["shr"])
+    w = nd + sum(len(vs) + len(prm) + 4 for vs, _, prm in model["props"])
+    f = R.space_size(model["shr"]) * w * (1 + (nd if cfg.get("cons") else 0))
+    return max(SOLVER_BUDGET, min(BUDGET_CAP, 20_000 + 200 * f))
+
+
 def run_c15(ch: Choices, params: dict, known: dict) -> dict:
     """In-process part of C15: the same problem with the same configuration is solved twice in this interpreter.  The
     two executions draw the same simulator choices (same sub-seed) and differ in what a correct solver cannot see: the
@@ -323,7 +340,7 @@ def run_one(ch, focus, model, cfg, mode, policy, ref, out, problem=None) -> str:
     c0 = CLOCK.count
     # the budget is a function of the problem size (C04): the loops of the heuristics and of shaving run over all shared
     # domains, so hundreds of instantiated padding domains multiply the steps of every choice without changing the search
-    budget = SOLVER_BUDGET * max(1, -(-len(model["shr"]) // 10))
+    budget = step_budget(model, cfg)
     CLOCK.set_budget(budget)
     prop_of_mode = "C03" if mode[0] in ("minimize", "maximize") else "C02"
     try:
@@ -372,6 +389,10 @@ def run_one(ch, focus, model, cfg, mode, policy, ref, out, problem=None) -> str:
         CLOCK.clear_budget()
     used = CLOCK.count - c0
     out["steps"] += used
+    if os.environ.get("VERIF_BUDGET_TRACE"):  # developer aid: calibration of the step budget
+        with open(os.environ["VERIF_BUDGET_TRACE"], "a") as fh:
+            fh.write(json.dumps([used, len(model["shr"]), R.space_size(model["shr"]), [[len(p[0]), p[1], len(p[2])] for p in model["props"]],
+                                 cfg["cons"], mode[0], len(ref), L.c["exec"], L.c["bc"], L.c["choice"]]) + "\n")
     out["probes"]["executions"] += L.c["exec"]
     out["probes"]["passes"] += L.c["bc"]
     out["probes"]["choices"] += L.c["choice"]
